@@ -45,7 +45,7 @@ func (p *propC04) Assumptions() []string {
 	}
 }
 func (p *propC04) ProbeNames() []string {
-	return []string{"burst across header/data boundary", "burst inside stored file CRC", "burst inside stored header CRC", "stored header CRC turned to 0", "header matrix: matching", "header matrix: zero", "header matrix: mismatching", "precondition: pool file passes both", "targeted burst: stored CRC forced to a special value"}
+	return []string{"burst across header/data boundary", "burst inside stored file CRC", "burst inside stored header CRC", "stored header CRC turned to 0", "header matrix: matching", "header matrix: zero", "header matrix: mismatching", "header matrix: none", "precondition: pool file passes both", "targeted burst: stored CRC forced to a special value"}
 }
 
 func (p *propC04) Prepare(seed uint64, tier string) int {
@@ -209,8 +209,12 @@ func (p *propC04) genHeader(i int) *Scenario {
 	protos := []byte{0x10, 0x20, 0x00, 0x1F, 0x2F, 0x21}
 	rs.Header.Proto = protos[r.Intn(len(protos))]
 	rs.Header.Profile = uint16(r.U64())
-	mode := []string{"ok", "zero", "bit", "rand"}[r.Intn(4)]
+	mode := []string{"ok", "zero", "bit", "rand", "none"}[r.Intn(5)]
 	switch mode {
+	case "none":
+		// 12-byte header: no CRC to check; every API must accept it, whatever it saw before
+		rs.Header.Size = 12
+		rs.Header.HCRC = ""
 	case "ok", "zero":
 		rs.Header.HCRC = mode
 	default:
@@ -309,13 +313,15 @@ func (p *propC04) checkHeader(sc *Scenario, st *Stats) []Violation {
 		vs = append(vs, Violation{Property: "C04", Class: "C04/header/" + class, Detail: fmt.Sprintf(format, a...)})
 	}
 	b := sc.buildMedia()["m0"]
-	if len(b) < 14 || b[0] != 14 {
+	if len(b) < 14 || (b[0] != 14 && b[0] != 12) {
 		return nil
 	}
 	stored := get16(b[12:14], false)
 	correct := crc16(b[:12])
 	state := "mismatching"
 	switch {
+	case b[0] == 12:
+		state = "none"
 	case stored == correct:
 		state = "matching"
 	case stored == 0:
@@ -346,7 +352,7 @@ func (p *propC04) checkHeader(sc *Scenario, st *Stats) []Violation {
 				bad(c+"/accepts-bad-header-crc", "%s accepted a header whose stored CRC %#04x does not match its contents (computed %#04x)", c, stored, correct)
 			}
 		}
-	case "matching":
+	case "matching", "none":
 		if protoOK {
 			for _, c := range []string{"CheckIntegrityHeader", "DecodeHeader", "Decode", "HeaderCheckIntegrity"} {
 				if verdict[c] != "accept" {
